@@ -314,6 +314,25 @@ func (w *YW) NetHead() uint64 {
 	return h
 }
 
+// configureDisk picks the datastore flavour and, sometimes, makes every datastore
+// operation a park point with occasional latency, so that the Store's own goroutine
+// interleaves with the Syncer's and appends can meet a full write queue.
+func (w *YW) configureDisk() {
+	s := w.S
+	w.Flav = core.Pick(s.Tape, "flavour", []string{"plain", "ctx"})
+	if s.Tape.Coin("park-disk", 1, 3) {
+		w.Disk.Park = true
+		drng := s.Sub("disk-latency")
+		w.Disk.Latency = func(op string) time.Duration {
+			if drng.Coin("stall", 1, 10) {
+				s.Fault("disk-latency-stall")
+				return time.Duration(1+drng.Draw("stall-ms", 2000)) * time.Millisecond
+			}
+			return 0
+		}
+	}
+}
+
 // OpenStore creates and starts the Store.
 func (w *YW) OpenStore(p store.Parameters) error {
 	var err error
@@ -352,7 +371,36 @@ func (w *YW) storedHeights() map[uint64][]byte {
 // stored header (API and raw datastore) is the honest chain's, and the stored
 // heights form one gap-free run Tail..Head.
 func (w *YW) checkStoreIsHonestChain(why string, needContiguous bool) {
+	// "one gap-free run" is a statement about quiescence. A gap seen while headers are still
+	// arriving (a long sync behind a slow disk can outlast any waiting budget) is re-examined
+	// after more virtual time; only a gap that persists is reported.
+	for attempt := 0; ; attempt++ {
+		gap := w.checkStoreOnce(why, needContiguous, attempt < 3)
+		if !gap || w.S.Failed() {
+			return
+		}
+		w.S.Probe("gap-rechecked-after-more-time")
+		if w.Sy != nil {
+			w.waitSyncIdle(2 * time.Hour)
+		} else {
+			w.S.Quiesce(time.Minute)
+		}
+	}
+}
+
+// checkStoreOnce does one pass; with deferGap it reports a contiguity problem to the caller
+// (true) instead of recording a violation.
+func (w *YW) checkStoreOnce(why string, needContiguous, deferGap bool) (gapSeen bool) {
 	s := w.S
+	if w.Sy != nil && needContiguous {
+		// "one gap-free run" is a statement about quiescence: while the sync loop is still in
+		// the middle of a sync (a very long one behind a slow disk can outlast the waiting
+		// budget) headers keep arriving between the reads below
+		if st := w.Sy.State(); st.ID != 0 && st.Start.After(st.End) {
+			needContiguous = false
+			s.Probe("contiguity-not-judged-sync-still-running")
+		}
+	}
 	var head, tail *H
 	var herr, terr error
 	fin := false
@@ -418,17 +466,24 @@ func (w *YW) checkStoreIsHonestChain(why string, needContiguous bool) {
 	if needContiguous {
 		for h := tail.Height(); h <= head.Height(); h++ {
 			if _, ok := idx[h]; !ok {
+				if deferGap {
+					return true
+				}
 				s.Violate("gap-in-store", map[string]string{"where": "inside"}, "[%s] Tail=%d Head=%d but height %d is not stored", why, tail.Height(), head.Height(), h)
-				return
+				return false
 			}
 		}
 		for h := range idx {
 			if h < tail.Height() || h > head.Height() {
+				if deferGap {
+					return true
+				}
 				s.Violate("gap-in-store", map[string]string{"where": "outside"}, "[%s] height %d is stored outside Tail=%d..Head=%d", why, h, tail.Height(), head.Height())
-				return
+				return false
 			}
 		}
 	}
+	return false
 }
 
 // waitSyncIdle lets virtual time pass until the Syncer's sync loop is not in the
